@@ -53,6 +53,18 @@ type c14Item struct {
 	Junk  uint64 `json:"junk,omitempty"`  // decoy: root addresses; valid, rev != 0: the unused 32-bit root address
 	OEM   []byte `json:"oem,omitempty"`   // OEMID (6 bytes)
 	Tail  []byte `json:"tail,omitempty"`  // bytes that follow the structure in memory
+	// Cut (16 or 32, decoys on a boundary only): only the first Cut bytes belong to the decoy;
+	// what follows - and takes part in its checksums - is the next structure, which starts in the
+	// very next slot
+	Cut int `json:"cut,omitempty"`
+}
+
+// own is the number of bytes the item writes itself.
+func (it c14Item) own() int {
+	if it.Cut != 0 {
+		return it.Cut
+	}
+	return it.size()
 }
 
 func (it c14Item) size() int {
@@ -525,7 +537,10 @@ func c14Build(c *c14Case) (*c14Env, error) {
 	w := wdata[len(wdata)-c.Win:]
 	e.winLow = vlib.AddrOf(w)
 	copy(w, c14Expand(c.Fill, c.Win))
-	type span struct{ lo, hi int }
+	type span struct {
+		lo, hi int
+		cut    bool
+	}
 	var used []span
 	rootAddr := uint64(e.addr(e.root))
 	for i := range c.Items {
@@ -534,13 +549,23 @@ func c14Build(c *c14Case) (*c14Env, error) {
 		if it.Slot < 0 || it.Off < 0 || it.Off > 15 || pos+it.size() > c.Win {
 			return nil, fmt.Errorf("item %d does not lie wholly inside the search area", i)
 		}
-		end := pos + it.size() + len(it.Tail)
+		end := pos + it.own() + len(it.Tail)
+		if it.Cut != 0 {
+			if (it.Cut != 16 && it.Cut != 32) || it.Cut >= it.size() || it.Valid || it.Off != 0 || it.NoSig != 0 || len(it.Tail) != 0 ||
+				i+1 >= len(c.Items) || c.Items[i+1].Slot != it.Slot+it.Cut/16 || c.Items[i+1].Off != 0 || c.Items[i+1].Cut != 0 {
+				return nil, fmt.Errorf("item %d: a cut decoy must be directly followed by a whole structure in the next slot", i)
+			}
+		}
 		for _, u := range used {
-			if pos < u.hi+8 && u.lo < end+8 {
+			gap := 8
+			if u.cut && u.hi == pos {
+				gap = 0 // the structure that follows a cut decoy
+			}
+			if pos < u.hi+gap && u.lo < end+gap {
 				return nil, fmt.Errorf("item %d overlaps another one", i)
 			}
 		}
-		used = append(used, span{pos, end})
+		used = append(used, span{pos, end, it.Cut != 0})
 		// a decoy has an invalid checksum: for revision 0 the 20-byte sum, for later revisions the
 		// extended 36-byte sum (its 20-byte sum may be right - the structure is still invalid); the
 		// combination "20 bytes wrong, 36 bytes right" is left out as unspecified
@@ -586,6 +611,10 @@ func c14Build(c *c14Case) (*c14Env, error) {
 				b[32] += it.Bad36
 			}
 		}
+		if it.Cut != 0 {
+			// written after the structure that follows it (see below)
+			continue
+		}
 		copy(w[pos:], b)
 		copy(w[pos+len(b):], it.Tail) // cut off where the search area ends
 		// self-check of the builder: the flags of the model are what the bytes say
@@ -593,6 +622,49 @@ func c14Build(c *c14Case) (*c14Env, error) {
 		s36 := it.Rev == 0 || (c14Sum(w[pos:pos+36]) == 0 && it.Len == 36)
 		if it.Valid != (s20 && s36) || (!it.Valid && ((it.Rev == 0 && s20) || (it.Rev != 0 && c14Sum(w[pos:pos+36]) == 0))) {
 			return nil, fmt.Errorf("item %d: model says valid=%v, bytes say sum20ok=%v sum36ok=%v", i, it.Valid, s20, s36)
+		}
+	}
+	// cut decoys: their own bytes go in front of the structure that follows; both checksums are
+	// then broken as seen over the final bytes (never "20 wrong, 36 right", which is unspecified)
+	for i := range c.Items {
+		it := &c.Items[i]
+		if it.Cut == 0 {
+			continue
+		}
+		pos := it.Slot * 16
+		if pos+it.size() > c.Win {
+			return nil, fmt.Errorf("item %d does not lie wholly inside the search area", i)
+		}
+		b := make([]byte, it.Cut)
+		copy(b, rsdpSignature[:])
+		copy(b[9:15], append(append([]byte(nil), it.OEM...), "      "...)[:6])
+		b[15] = it.Rev
+		if it.Cut == 32 {
+			binary.LittleEndian.PutUint32(b[16:], uint32(it.Junk))
+			binary.LittleEndian.PutUint32(b[20:], it.Len)
+			binary.LittleEndian.PutUint64(b[24:], it.Junk)
+		}
+		copy(w[pos:], b)
+		bad := it.Bad20
+		if bad == 0 {
+			bad = 0x5a
+		}
+		for tries := 0; ; tries++ {
+			w[pos+8] = 0
+			w[pos+8] = bad - c14Sum(w[pos:pos+20])
+			if it.Rev == 0 || c14Sum(w[pos:pos+36]) != 0 {
+				break
+			}
+			bad = bad*3 + 1 // another non-zero error of the 20-byte sum
+			if bad == 0 {
+				bad = 1
+			}
+			if tries > 8 {
+				return nil, fmt.Errorf("item %d: cannot break both checksums of the cut decoy", i)
+			}
+		}
+		if c14Sum(w[pos:pos+20]) == 0 || (it.Rev != 0 && c14Sum(w[pos:pos+36]) == 0) {
+			return nil, fmt.Errorf("item %d: cut decoy ended up with a valid checksum", i)
 		}
 	}
 	// the filler must not contain the signature on a boundary by accident
@@ -1272,6 +1344,7 @@ func c14Gen(t *rapid.T, st *vlib.Stats) c14Case {
 	where := rapid.SampledFrom([]string{"first", "last", "last", "any", "any", "any", "any"}).Draw(t, "where")
 	need := func(it c14Item) int { return (it.Off + it.size() + len(it.Tail) + 8 + 15) / 16 }
 	cur := 0
+	adjacent := false
 	var real c14Item
 	if haveReal {
 		real = c14GenItem(t, c14GenRev(t), true)
@@ -1310,12 +1383,28 @@ func c14Gen(t *rapid.T, st *vlib.Stats) c14Case {
 				it.Slot = lastSlot(it) // a decoy in the last slot where it still fits
 			}
 			cur = it.Slot + need(it)
+			if haveReal && i == npre-1 && it.Off == 0 && it.NoSig == 0 && !it.Valid && rapid.IntRange(0, 2).Draw(t, "adjacent") == 0 {
+				// the decoy sits in the slot(s) directly in front of the real structure
+				it.Cut = 16
+				if it.Rev != 0 && rapid.Bool().Draw(t, "cut32") {
+					it.Cut = 32
+				}
+				it.Tail = nil
+				if it.Slot+it.Cut/16 <= lastSlot(real) {
+					cur = it.Slot + it.Cut/16
+					adjacent = true
+				} else {
+					it.Cut = 0
+				}
+			}
 			c.Items = append(c.Items, it)
 		}
 	}
 	if haveReal {
 		last := lastSlot(real)
 		switch {
+		case adjacent:
+			real.Slot = cur
 		case where == "first" || last <= cur:
 			real.Slot = cur
 			if real.Slot > last {
